@@ -297,6 +297,7 @@ func runC17(c *Ctx) {
 	guard := m.guard
 	c.Note("model", map[string]string{"collector": m.T, "records": m.acT, "start_time_field": m.timeField, "open_count_field": m.cntField, "start_entries": names(m.starts), "stop_entries": names(m.stops)})
 	ruleClock(c, m, "CLOCK")
+	ruleKeyAddr(c, m, "PAIR")
 
 	rulePair(c, m)
 	ruleReset(c, m)
@@ -826,4 +827,146 @@ func ruleReset(c *Ctx, m *ttModel) {
 		}
 		c.CheckAt("RESET", short(start)+":new-record-only-on-miss", insert, len(miss) > 0 && eng.Cut(start, insert.Block(), miss), "an existing client's record (and its running start time) is replaced by a fresh one")
 	}
+}
+
+// ruleKeyAddr (C17, C20): the address stored in a tunnel-time key is the client's own IP address in one canonical form.
+// The key identifies "one client" (C17: two representations of one address make two clients, whose overlapping tunnels are
+// counted twice) and is what the location lookup classifies (C20: a masked or otherwise transformed address is classified
+// instead of the client's). Accepted derivations, from a net.Addr parameter or a RemoteAddr() result A:
+//   ParseAddr(host of SplitHostPort(A.String()))         — the textual form of an IPv4-mapped address is the IPv4 form
+//   ParseAddrPort(A.String()).Addr()
+//   X.Unmap() where X is any of the above, A.AddrPort().Addr(), or AddrFromSlice(A.IP)
+// Anything else (AddrPort().Addr() without Unmap, Prefix/Masked/Next/WithZone …) is reported.
+func ruleKeyAddr(c *Ctx, m *ttModel, rule string) {
+	p := c.P
+	addrField := ""
+	for _, fl := range p.StructFields(m.keyT) {
+		if fl.Type().String() == "net/netip.Addr" {
+			addrField = fl.Name()
+		}
+	}
+	if addrField == "" {
+		c.Undecided(rule, "anchor:key-address-field", "-", "the tunnel-time key type "+m.keyT+" has no netip.Addr field")
+		return
+	}
+	why := ""
+	fail := func(v ssa.Value, what string) bool {
+		if why == "" {
+			why = what + ": " + valStr(p, v)
+		}
+		return false
+	}
+	res := func(v ssa.Value) (*ssa.Call, int) {
+		v = p.Resolve(v)
+		if cc, i, ok := eng.AsResult(v); ok {
+			return cc, i
+		}
+		return nil, -1
+	}
+	var addrSource, strOfAddr, hostOfAddr, raw, canon func(v ssa.Value, d int) bool
+	addrSource = func(v ssa.Value, d int) bool {
+		if d > 10 {
+			return fail(v, "too deep")
+		}
+		ok, bad := p.AllFrom(v, eng.OriginOpts{ThroughConvert: true, Interproc: true, ThroughFieldLoad: false}, func(x ssa.Value) bool {
+			switch y := x.(type) {
+			case *ssa.Parameter:
+				return true
+			case *ssa.Call:
+				return eng.MethodName(&y.Call) == "RemoteAddr"
+			case *ssa.UnOp:
+				// a field of the per-connection metrics object holding the client address
+				_, _, _, isF := eng.FieldLoad(y)
+				return isF
+			}
+			return false
+		})
+		if !ok && len(bad) > 0 {
+			return fail(bad[0], "not the connection's address")
+		}
+		return ok
+	}
+	strOfAddr = func(v ssa.Value, d int) bool {
+		cc, _ := res(v)
+		if cc == nil || eng.MethodName(&cc.Call) != "String" {
+			return fail(v, "not the String() of the address")
+		}
+		return addrSource(eng.Receiver(&cc.Call), d+1)
+	}
+	hostOfAddr = func(v ssa.Value, d int) bool {
+		cc, i := res(v)
+		if cc == nil || eng.CalleeName(&cc.Call) != "net.SplitHostPort" || i != 0 {
+			return fail(v, "not the host part of SplitHostPort")
+		}
+		return strOfAddr(cc.Call.Args[0], d+1)
+	}
+	// raw: the client's IP, possibly in IPv4-mapped form
+	raw = func(v ssa.Value, d int) bool {
+		if canon(v, d+1) {
+			return true
+		}
+		cc, i := res(v)
+		if cc == nil {
+			return false
+		}
+		switch eng.CalleeName(&cc.Call) {
+		case "(net/netip.AddrPort).Addr":
+			ac, _ := res(eng.Receiver(&cc.Call))
+			if ac != nil && (eng.MethodName(&ac.Call) == "AddrPort") {
+				why = ""
+				return addrSource(eng.Receiver(&ac.Call), d+1)
+			}
+		case "net/netip.AddrFromSlice":
+			if i == 0 {
+				why = ""
+				return p.AnyFrom(cc.Call.Args[0], eng.OriginOpts{ThroughConvert: true, ThroughFieldLoad: true, ThroughSlice: true}, func(x ssa.Value) bool {
+					_, isP := x.(*ssa.Parameter)
+					return isP
+				})
+			}
+		}
+		return false
+	}
+	canon = func(v ssa.Value, d int) bool {
+		if d > 10 {
+			return fail(v, "too deep")
+		}
+		v = p.Resolve(v)
+		if ph, ok := v.(*ssa.Phi); ok {
+			for _, e := range ph.Edges {
+				if !canon(e, d+1) {
+					return false
+				}
+			}
+			return true
+		}
+		cc, i := res(v)
+		if cc == nil {
+			return fail(v, "not derived from the connection's address by a recognised conversion")
+		}
+		switch eng.CalleeName(&cc.Call) {
+		case "net/netip.ParseAddr":
+			return i == 0 && hostOfAddr(cc.Call.Args[0], d+1)
+		case "(net/netip.Addr).Unmap":
+			return raw(eng.Receiver(&cc.Call), d+1)
+		case "(net/netip.AddrPort).Addr":
+			pc, pi := res(eng.Receiver(&cc.Call))
+			if pc != nil && eng.CalleeName(&pc.Call) == "net/netip.ParseAddrPort" && pi == 0 {
+				return strOfAddr(pc.Call.Args[0], d+1)
+			}
+			return fail(v, "AddrPort().Addr() keeps the IPv4-mapped form (no Unmap)")
+		}
+		return fail(v, "the address is transformed by "+eng.CalleeName(&cc.Call))
+	}
+	n := 0
+	for _, st := range p.FieldStores(m.keyT, addrField) {
+		if st.Val == nil || p.IsTestSupport(st.Fn) {
+			continue
+		}
+		n++
+		why = ""
+		ok := canon(st.Val, 0)
+		c.CheckAt(rule, short(st.Fn)+":key-address-is-the-client-address-in-canonical-form", st.Ins, ok, "the address stored in the tunnel-time key is not the client's own IP in canonical (unmapped) form ("+why+"): one client can appear under two keys, or another address than the client's is counted and classified")
+	}
+	c.Floor(rule, "constructions of the tunnel-time key", n, 1)
 }
